@@ -2,6 +2,7 @@ import Unimock.Model.Assemble
 import Unimock.Generated.TupleImpls
 import Unimock.Lemmas.State
 import Unimock.Lemmas.Typestate
+import Unimock.Lemmas.TypestateBridge
 /-!
 # C14 — clause composition preserves order and rejects inconsistent setups up front
 
@@ -246,13 +247,13 @@ theorem C14_new_mock_error_iff (fb : Fallback) (c : ClauseTree α ρ) :
 /-! ## the compile-time half: which builder chains type-check (Model/Typestate) -/
 
 open Typestate in
-theorem run_inOrder_no_atLeast (s s' : St) (cs : List Call) (h : run s cs = some s') (ho : s.ord = .inOrder) :
+theorem run_inOrder_no_atLeast (s s' : St) (cs : List Call) (h : Typestate.run s cs = some s') (ho : s.ord = .inOrder) :
     Call.atLeastTimes ∉ cs := by
   induction cs generalizing s with
   | nil => simp
   | cons c cs ih =>
     rw [run_cons] at h
-    cases hs : step s c with
+    cases hs : Typestate.step s c with
     | none => simp [hs] at h
     | some s1 =>
       simp only [hs, Option.bind_some] at h
@@ -270,19 +271,19 @@ open Typestate in
 theorem C14_ordered_only_exact_counts (cs : List Call) (h : accepts .nextCall cs = true) :
     Call.atLeastTimes ∉ cs := by
   unfold accepts at h
-  cases hr : run Entry.nextCall.start cs with
+  cases hr : Typestate.run Entry.nextCall.start cs with
   | none => simp [hr] at h
   | some s' => exact run_inOrder_no_atLeast _ s' cs hr rfl
 
 open Typestate in
-theorem run_then_position (s s' : St) (cs : List Call) (h : run s cs = some s') (i : Nat)
+theorem run_then_position (s s' : St) (cs : List Call) (h : Typestate.run s cs = some s') (i : Nat)
     (hi : cs[i]? = some .then_) :
     (i = 0 ∧ s = .quantified s.ord .exact) ∨ ∃ j, i = j + 1 ∧ (cs[j]? = some .once ∨ cs[j]? = some .nTimes) := by
   induction cs generalizing s i with
   | nil => simp at hi
   | cons c cs ih =>
     rw [run_cons] at h
-    cases hs : step s c with
+    cases hs : Typestate.step s c with
     | none => simp [hs] at h
     | some s1 =>
       simp only [hs, Option.bind_some] at h
@@ -306,7 +307,7 @@ open Typestate in
 theorem C14_then_only_after_exact (e : Entry) (cs : List Call) (h : accepts e cs = true) (i : Nat)
     (hi : cs[i]? = some .then_) : ∃ j, i = j + 1 ∧ (cs[j]? = some .once ∨ cs[j]? = some .nTimes) := by
   unfold accepts at h
-  cases hr : run e.start cs with
+  cases hr : Typestate.run e.start cs with
   | none => simp [hr] at h
   | some s' =>
     rcases run_then_position e.start s' cs hr i hi with ⟨_, hq⟩ | h2
@@ -318,5 +319,24 @@ example : accepts .nextCall [.other, .nTimes, .then_, .other] = true ∧ accepts
     accepts .someCall [.other, .atLeastTimes] = true ∧ accepts .someCall [.other, .atLeastTimes, .then_] = false ∧
     accepts .someCall [.other, .then_] = false ∧ accepts .nextCall [] = false ∧ accepts .stubCall [.other, .once, .then_] = true := by
   decide
+
+open Typestate in
+/-- **C14, what the compile-time rule buys at Typestate.run time.** The assembler gives an ordered pattern the slot range
+    `[cur, cur + min)` and relies on the count being exact (`exact_calls().expect(..)` in
+    `MockAssembler::new_call_pattern`). Every chain of builder calls that starts with `next_call` and type-checks,
+    read as a quantifier chain of the value-level builder model and used as a clause, ends with exactness `exact`
+    — so that reliance is justified for every program rustc accepts. -/
+theorem C14_ordered_chain_is_exact {α ρ : Type} (v : ρ) (cs : List Call) (h : accepts .nextCall cs = true)
+    (fuel : Nat) (segs : List (Segment ρ)) (hs : toSegs v fuel true cs = some segs)
+    (b : Builder α ρ) (hb : b.mode = .inOrder) : (buildChain b true segs).ex = .exact := by
+  rw [(C03_expectation_of_chain b true segs).2, hb]
+  apply chainExactness_ordered_exact _ _ (toSegs_ne_nil v fuel true cs segs hs)
+  intro s hmem n hq
+  exact C14_ordered_only_exact_counts cs h (toSegs_atLeast v fuel true cs segs hs s hmem n hq)
+
+open Typestate in
+/-- non-vacuity: `next_call(..).returns(v).n_times(2).then().answers(..)` reads as two segments -/
+example : ((toSegs (ρ := Int) 5 9 true [.returns true, .nTimes, .then_, .other]).map (·.length)) = some 2 ∧
+    accepts .nextCall [.returns true, .nTimes, .then_, .other] = true := by decide
 
 end Unimock
